@@ -10,6 +10,7 @@ EXPLANATION = ('Structural necessary conditions of C08: on_cancel_tasks releases
                'worker and forgets the task and its recursive consumers; a queue-resident state must be dequeued when left (R08.2); '
                'cancel_job is core-first, await-free and idempotent; the worker CancelTasks handler covers every container that can hold a task.')
 NOT_DECIDED = ['that the worker actually stops the process (OS behaviour)', 'global ordering of late messages (R01.2 covers the unknown-id path)']
+RELATED = {'C01': ['R01.2'], 'C05': ['R05.5']}
 ASSUMPTIONS = ['per-connection FIFO']
 
 OPTION = 'core::option::Option'
